@@ -46,6 +46,21 @@ CHECKS = {
     "C11": ("pcsim", "exploration",
             "Seeded search over interleavings of 1-4 tasks calling CreateOffer/CreateAnswer on one real PeerConnection (fresh / holding a remote offer / after a completed exchange), scheduling points at every lock and atomic site of peerconnection.go and sdp.go; single-task cases give the sequential histories. Oracle: one o= session id, pairwise distinct versions, real-time order of calls respected by versions, every call returns.",
             COOP_NOTE + " The remote description comes from the foreign SDP generator; transports started by the set-up run free, so a few percent of seeds are not bit-reproducible (decision-exact replay).", TECH_COOP + " (focus-coop on peerconnection.go + sdp.go)", "§6 C11"),
+    "C18": ("pcsim", "exploration",
+            "A real connected (or still connecting) pair under the focus-coop scheduler: 2-4 tasks create in-band channels and negotiated channels with explicit ids on both peers, close them locally and remotely and send, while SCTP start-up, the open handshake and the accept loop of both peers are scheduled at every lock/atomic site of datachannel.go and sctptransport.go; a sampler records every channel's stream id at every step. Oracle: a pion-assigned id is even iff the local DTLS role is client, is never 65535, is not the id of a channel that already had it, and an id once set never changes.",
+            PC_NOTE + " Both DTLS roles are covered by letting either peer offer. Collisions caused by an application passing an explicit id that is already in use are counted, not reported (pion does not check them; the property is about assigned ids).", TECH_COOP + " (focus-coop on datachannel.go/sctptransport.go inside a whole-pair simulation)", "§6 C18"),
+    "C20": ("pcsim", "exploration",
+            "Same engine as C18 with local Close/GracefulClose, remote close, Send and PeerConnection.Close/GracefulClose tasks around the open handshake. A sampler reads readyState of every channel object (local and announced, both peers) at every scheduling step. Oracle: the sampled sequence never moves backwards along connecting < open < closing < closed; OnOpen and OnClose each run at most once per registration; Send on a channel that is not open returns an error; a channel on which Close returned is closed once both PeerConnections are closed.",
+            PC_NOTE + " Runs in which a GracefulClose waits forever for a stream reset the remote never sends (channel closed before its open message was delivered; documented GracefulClose behaviour) are counted inconclusive.", TECH_COOP + " (focus-coop inside a whole-pair simulation, per-step state sampler)", "§6 C20"),
+    "C31": ("iosim", "exploration",
+            "Packet-stream simulation: frames are packetized with a harness depacketizer whose payload bytes name (frame, index, head, tail), so every byte of every emitted sample is attributable to one pushed packet; delivery applies seeded reordering within a window, loss and duplication, sequence/timestamp wrap-around, Pops interleaved with Pushes and a final Flush; maxLate and max time delay vary. Oracle: a sample is a contiguous run of one timestamp starting at a partition head, samples come out in sequence order, no packet in two samples, complete frames are emitted after Flush for loss-free bounded reordering.",
+            "Pure function of the case (exactly replayable). Completeness is only demanded when reordering distance + frame span <= maxLate and no time delay is set.", "deterministic simulation of a lossy/reordering/duplicating packet link in front of the real SampleBuilder, attribution oracle", "§6 C31"),
+    "C34": ("iosim", "exploration",
+            "Stream simulation: random H.264/H.265 NAL sequences (all types, SEI anywhere incl. last, 1 B-10 KiB, 3/4-byte start codes) are read through a simulated io.Reader with seeded chunk sizes, zero-length reads, data returned together with io.EOF and, in the faulty configuration, one transient error. Oracle (fault-free source): exactly the NAL list, header fields equal the header bytes, SEI skipped when off; after an injected error only 'no wrong data'. On a violation the case is re-run with each source behaviour switched off to name the cause.",
+            "Pure function of the case (exactly replayable). NAL payloads contain no emulated start codes and no trailing zero byte, as the property assumes.", "deterministic simulation of the byte source (short/empty reads, EOF-with-data, injected read error) under the real Annex-B readers", "§6 C34"),
+    "C37": ("iosim", "exploration",
+            "Crash/torn-write and corruption simulation for the IVF, Ogg, H.264, H.265 and rtpdump readers and ParseOpusHead/ParseOpusTags: every valid seed file (built with the repository's writers and by hand) is truncated at EVERY offset (complete enumeration, partitioned over the batch), and seeded corruptions (byte flips, length fields overwritten with boundary values, splices, early read errors) are delivered through the seeded chunking reader. Oracle: no panic, every call returns data, an error or end of stream, and the number of successful calls and of Read calls is bounded by the stream length (no hang, no spinning after EOF).",
+            "Pure function of the case (exactly replayable). Seeded structural mutation, not coverage-guided fuzzing. Memory use is observed (IVF allocates the declared frame size) but not judged.", "deterministic simulation of torn/corrupted media files and a misbehaving byte source under the real container readers; truncation enumerated completely", "§6 C37"),
 }
 
 SIG_TEXT = {
